@@ -542,6 +542,40 @@ class Families:
                                + m.min_yield_seq(P.prod[i + 1:]) + csuf)
         return out
 
+    def s0_triples(self, exclude=()):
+        """minimal CFG sentence through every chain (production P, position i, child production C, position j,
+        grandchild production D): two derivation steps away from the minimal sentences.  Distinct terminal strings
+        not in `exclude`, sorted."""
+        m = self.m
+        ctx = self._contexts()
+        INF = float('inf')
+        ok = lambda P: all(m.ycost.get(s, INF) != INF for s in P.prod)
+        out = set()
+        self.triple_targets = 0
+        for P in m.prods[1:]:
+            if not ok(P) or P.name not in ctx:
+                continue
+            cpre, csuf = ctx[P.name]
+            for i, s in enumerate(P.prod):
+                if s not in m.nonterminals:
+                    continue
+                a = cpre + m.min_yield_seq(P.prod[:i])
+                b = m.min_yield_seq(P.prod[i + 1:]) + csuf
+                for C in m.prods_of[s]:
+                    if not ok(C):
+                        continue
+                    for j, s2 in enumerate(C.prod):
+                        if s2 not in m.nonterminals:
+                            continue
+                        a2 = a + m.min_yield_seq(C.prod[:j])
+                        b2 = m.min_yield_seq(C.prod[j + 1:]) + b
+                        for D in m.prods_of[s2]:
+                            if ok(D):
+                                self.triple_targets += 1
+                                out.add(a2 + m.min_yield_seq(D.prod) + b2)
+        ex = set(exclude)
+        return sorted(x for x in out if x not in ex)
+
     def _contexts(self):
         """cheapest (prefix, suffix) context start =>* prefix N suffix for every nonterminal N"""
         m = self.m
